@@ -322,7 +322,7 @@ def r9_ordered_commands(ctx):
             for fld in v.get("fields", []):
                 fields += 1
                 ty = fld.get("ty") or ""
-                if any(w in ty for w in ("Atomic", "Mutex", "RwLock", "Condvar", "UnsafeCell", "Cell<")):
+                if any(w in ty for w in ("Atomic", "Mutex", "RwLock", "Condvar", "UnsafeCell")):
                     shared.append("%s.%s: %s" % (k.rsplit("::", 1)[-1], fld.get("name"), ty))
     ctx.ob(rid, "adt-walk-control", fields >= 40, "" if fields >= 40 else "only %d fields of engine_core types were seen: the ADT facts are incomplete" % fields, "", sample={"fields_scanned": fields})
     ctx.ob(rid, "no-shared-state-outside-the-channel", not shared,
